@@ -253,11 +253,12 @@ func (k Keeper) StartDistributionProcess(ctx sdk.Context, states *[]types.State,
 	localRemains = states
 	defaultShare := coinsToDistributeDec
 	for _, share := range subDistributor.Destinations.Shares {
-		if share.Destination.Type == types.Main {
-			continue
-		}
 		calculatedShare := calculatePercentage(share.Share, coinsToDistributeDec)
 		defaultShare = defaultShare.Sub(calculatedShare)
+		if share.Destination.Type == types.Main {
+			// the share stays on the main account for the sub distributor that has the main account as its source
+			continue
+		}
 		if !calculatedShare.IsZero() {
 			findFunc := func() int {
 				return findAccountState(localRemains, &share.Destination)
